@@ -382,12 +382,12 @@ def mkjob(sp, flavour, seed, tier):
             args += ['--' + k, sp[k]]
     args += ['--seed', seed]
     name = '%s.%s.%s' % (tier[0], flavour, '_'.join(str(a) for a in args[:-2]).replace('--', '').replace(':', '+').replace('/', '-'))
-    xml = os.path.join(XMLDIR, name + '.xml')
+    xml = os.path.join(XMLDIR, '%s.%d.xml' % (name, os.getpid()))     # pid: concurrent runs of this check do not collide
     tag = dict(entry=sp['entry'], impl=sp.get('impl', ''), canary=int(bool(sp.get('canary'))), xml=xml,
                params={k: sp[k] for k in ('curve', 'hash', 'var', 'size', 'scen') if sp.get(k) not in (None, '')})
     if sp.get('scen'):
         name = '%s.%s.hs_%s' % (tier[0], flavour, sp['scen'])
-        tag['xml'] = xml = os.path.join(XMLDIR, name + '.xml')
+        tag['xml'] = xml = os.path.join(XMLDIR, '%s.%d.xml' % (name, os.getpid()))
     return Job(name, sp.get('harness', 'ctrun'), args, flavour=flavour, wrapper=_vg(xml), timeout=1500, tag=tag)
 
 
